@@ -262,6 +262,23 @@ def check_platform_threaded(ctx, fl) -> None:
     ctx.floor(rule, n, 20, "calls between platform-parametrised methods of FlowIRConcrete")
 
 
+def check_user_layer_every_platform(ctx, pv, rule: str) -> None:
+    """The user's variables are written into the stage variables of every platform of the description (the platform argument of
+    the setter is the variable of an enclosing loop over the description's platforms) and for every stage.  Shared with C07: the
+    stored description is flattened under 'default', so a user layer that sits below the platform layers in the writer sits above
+    them after a reload."""
+    calls = [c for c in source.calls_in(pv) if last_attr(c) == "set_platform_stage_variable"]
+    for c in calls:
+        loops = [a for a in source.ancestors(c) if isinstance(a, ast.For)]
+        plat_vars = {x.id for lp in loops if "platforms" in source.src(lp.iter) for x in ast.walk(lp.target) if isinstance(x, ast.Name)}
+        ok_p = bool(plat_vars) and any(k.arg == "platform" and isinstance(k.value, ast.Name) and k.value.id in plat_vars for k in c.keywords)
+        ok_s = any(isinstance(lp.iter, ast.Call) and call_name(lp.iter) == "range" for lp in loops)
+        ctx.ob(rule, c, ok_p and ok_s, "for every platform and every stage" if ok_p and ok_s else
+               "user variables are not injected for every platform and stage: a platform that defines the same name shadows the user's value "
+               "in the experiment that stores the instance, and no longer does after the reload of the flattened description",
+               construct="for plat in platforms: for stage in range(n)")
+
+
 def run(ctx) -> None:
     ctx.explanation = (
         "Order of the variable layers (sequence of variables.update calls traced to their accessors) and of the option "
@@ -496,13 +513,7 @@ def run(ctx) -> None:
            "user variables are injected through set_platform_stage_variable (above platform settings, below the component's own)" if ok else
            "user variables are injected through %s: they land in a different layer than documented"
            % sorted({last_attr(c) for c in other_setters} or {"nothing"}))
-    for c in calls:
-        loops = [a for a in source.ancestors(c) if isinstance(a, ast.For)]
-        ok_p = any("platforms" in source.src(lp.iter) for lp in loops) and any(
-            k.arg == "platform" and isinstance(k.value, ast.Name) for k in c.keywords)
-        ok_s = any(isinstance(lp.iter, ast.Call) and call_name(lp.iter) == "range" for lp in loops)
-        ctx.ob("C04.R4-user-variables", c, ok_p and ok_s, "for every platform and every stage" if ok_p and ok_s else
-               "user variables are not injected for every platform and stage", construct="for plat in platforms: for stage in range(n)")
+    check_user_layer_every_platform(ctx, pv, "C04.R4-user-variables")
     # the variables injected for stage N are (user global) + (user stage N) and nothing else: the dictionary whose items are
     # injected is created inside the loop over the stages (a fresh copy per stage), not carried over from the previous stage
     from vlib import flow
